@@ -162,7 +162,15 @@ def rule_measure(ctx):
         else:
             ctx.ok("WR.MEASURE", site, fw, ms[0][1], "%s: alignment -> normalisation (%d store site(s)) -> measurement -> "
                    "formatting, and no later stage can be followed by an earlier one" % (name, len(ns)))
-    # every normalised section is also measured afterwards (the measurement sees final values)
+    # the measurement covers every item: widths are collected per item (list / generator), not keyed by a name that duplicates share
+    fg = p.func("writer.get_section_widths")
+    keyed = [s_ for s_ in walk_shallow(fg.node) if isinstance(s_, ast.Assign) and isinstance(s_.targets[0], ast.Subscript)
+             and not isinstance(s_.targets[0].slice, ast.Constant) and "len(" in ast.unparse(s_.value)]
+    mx = [c for c in walk_shallow(fg.node) if isinstance(c, ast.Call) and isinstance(c.func, ast.Name) and c.func.id == "max"]
+    ctx.check(not keyed and len(mx) >= 2, "WR.MEASURE", "writer.get_section_widths#all-items", fg, keyed[0] if keyed else fg.node,
+              "left and middle widths are the maxima over all items of the section",
+              "per-item widths are stored as `%s`: items that share a mnemonic overwrite each other, so the widest of them may not "
+              "be measured and its unit is glued to its value" % (unparse(keyed[0]) if keyed else "?"))
     ctx.floor("WR.MEASURE", 2)
 
 
